@@ -51,6 +51,15 @@
                              charges the record to the input's own source id (FALSE: to the empty key, shared by
                              every such source) -- SourceKeyAgrees / NoSharedCounter.
 
+     M_PrecheckOnlyForKnownStream  the "already committed" pre-check of Pipeline.In looks the saved offset up under the
+                             stream the decoder reports BEFORE decoding (cri: row.Stream; every other decoder: none,
+                             so nothing is found) (FALSE: an unknown stream counts as not_set) -- RefusedOnlyForStatedReasons.
+
+   PART "offs":  the Offsets argument of Pipeline.In: saved per-stream offsets {absent, behind, equal, ahead} for
+   not_set / the record's stream / another stream  x  decoder {raw, json without / with a stream field: stream known
+   only after decoding; cri: known before}  x  antispam off / on, with an input whose PassEvent says "already
+   committed" iff the saved offset of the record's OWN stream is not older than the record (as the file input does).
+
    PART "rlist":  the rule loop of IsSpam over a LIST of 1..3 rules (condition matches the record or not,
    threshold -1 / 0 / 1..3) and a global threshold: the governing threshold is that of the first matching
    rule, else the global one.
@@ -88,7 +97,7 @@ CONSTANTS
   T2s, Us, Modes,
   D_ResidualAfterUnban, D_ExceptionsIgnoredWithRules,
   M_CapPerSource, M_InvertAfterShortcut, M_LowerCopies, M_ErrClearedBeforeDecode, M_SubjectPerException,
-  M_FirstRuleWins, M_SourceFallsBackToInputId,
+  M_FirstRuleWins, M_SourceFallsBackToInputId, M_PrecheckOnlyForKnownStream,
   SKeyMaxLen,       \* skey: records per interleaving
   MSyms,            \* match: symbols of data and values (1 = a, 2 = b, 3 = A, the upper case of 1)
   MDataMax, MValMax,\* match: length bounds of data / values
@@ -100,6 +109,7 @@ B2I(b) == IF b THEN 1 ELSE 0
 Srcs == 1..NSrc
 
 VARIABLES part,
+          ofs,                      \* offsets case
           rl,                       \* rule-list case
           sk,                       \* source-key case
           cr,                       \* cri case
@@ -113,7 +123,7 @@ VARIABLES part,
           win, silent, pb,          \* declarative: arrivals since previous maintenance, silent rounds, may-be-banned
           resid                     \* explanation of D_ResidualAfterUnban: the counter the last maintenance left
 
-vars == <<part, rl, sk, cr, xl, mt, sz, sc, known, cnt, ts, thrOf, now, hist, win, silent, pb, resid>>
+vars == <<part, ofs, rl, sk, cr, xl, mt, sz, sc, known, cnt, ts, thrOf, now, hist, win, silent, pb, resid>>
 
 -----------------------------------------------------------------------------
 (* ============================ PART size ================================= *)
@@ -184,6 +194,37 @@ SizeExport == [part |-> "size", L |-> sz.L, nl |-> sz.nl, M |-> sz.M, cut |-> sz
                mret |-> In(sz).ret]
 
 NoSz == [L |-> 0, nl |-> FALSE, M |-> 0, cut |-> FALSE, mark |-> FALSE, undec |-> FALSE, committed |-> FALSE]
+
+-----------------------------------------------------------------------------
+(* ============================ PART offs ================================= *)
+
+OCur == 10                                     \* the record's own offset
+OSavedVals == {-1, 5, 10, 20}                   \* -1 = no entry; behind / equal / ahead
+OStreams == {"not_set", "stderr", "stdout"}
+ODecs == {"raw", "json", "json+stream", "cri"}
+OffsCases == {[dec |-> d, anti |-> a, saved |-> sv] : d \in ODecs, a \in BOOLEAN, sv \in [OStreams -> OSavedVals]}
+NoOfs == [dec |-> "raw", anti |-> FALSE, saved |-> [x \in OStreams |-> -1]]
+\* the stream the record turns out to belong to (stream field of the decoded event, else not_set)
+OOwn(c) == IF c.dec \in {"json+stream", "cri"} THEN "stderr" ELSE "not_set"
+\* the stream known before decoding: only the cri decoder has one (row.Stream)
+OKnown(c) == IF c.dec = "cri" THEN "stderr" ELSE ""
+
+(* --- transcription: the pre-check of In, then streamEvent -> input.PassEvent --- *)
+InOffs(c) ==
+  LET consult == c.anti                                          \* !row.IsPartial && Antispam.Threshold >= 0
+      name == IF M_PrecheckOnlyForKnownStream \/ OKnown(c) # "" THEN OKnown(c) ELSE "not_set"
+      streamOffset == IF name \in OStreams THEN c.saved[name] ELSE -1   \* offsets.ByStream(string(row.Stream)): -1 if not found
+      own == OOwn(c)
+  IN IF consult /\ streamOffset > 0 /\ OCur < streamOffset THEN [ret |-> 0, why |-> "precheck"]
+     ELSE IF c.saved[own] # -1 /\ ~(OCur > c.saved[own]) THEN [ret |-> 0, why |-> "PassEvent"]   \* the input's verdict
+     ELSE [ret |-> 1, why |-> ""]
+
+\* "recognised by its input as already committed": the saved offset of the record's own stream is not older than the record
+OCommitted(c) == c.saved[OOwn(c)] # -1 /\ OCur <= c.saved[OOwn(c)]
+RefusedOnlyForStatedReasons == part = "offs" => (InOffs(ofs).ret = 0 => OCommitted(ofs))
+OExport == [part |-> "offs", dec |-> ofs.dec, anti |-> ofs.anti, cur |-> OCur,
+            notset |-> ofs.saved["not_set"], stderr |-> ofs.saved["stderr"], stdout |-> ofs.saved["stdout"],
+            mayRefuse |-> OCommitted(ofs), mret |-> InOffs(ofs).ret]
 
 -----------------------------------------------------------------------------
 (* ============================ PART rlist ================================ *)
@@ -482,7 +523,7 @@ Arrive(s, kind, dt) ==
         /\ win' = win1 /\ pb' = pb1 /\ silent' = [silent EXCEPT ![s] = 0]
         /\ resid' = resid1
         /\ hist' = Append(hist, step)
-  /\ UNCHANGED <<part, rl, sk, cr, xl, mt, sz, sc>>
+  /\ UNCHANGED <<part, ofs, rl, sk, cr, xl, mt, sz, sc>>
 
 Maintain ==
   /\ part = "spam" /\ Len(hist) < MaxSteps
@@ -503,18 +544,19 @@ Maintain ==
         /\ win' = Zero /\ silent' = silent1 /\ pb' = pb1
         /\ resid' = cnt1
         /\ hist' = Append(hist, step)
-  /\ UNCHANGED <<part, rl, sk, cr, xl, mt, sz, sc, now>>
+  /\ UNCHANGED <<part, ofs, rl, sk, cr, xl, mt, sz, sc, now>>
 
 -----------------------------------------------------------------------------
 Init ==
   /\ part \in Parts
   /\ IF part = "rlist" THEN \E g \in RGlobals, rs \in RLists : rl = [g |-> g, rules |-> rs] ELSE rl = NoRl
   /\ IF part = "skey" THEN sk \in SKeyCases ELSE sk = NoSk
+  /\ IF part = "offs" THEN ofs \in OffsCases ELSE ofs = NoOfs
   /\ IF part = "cri" THEN cr \in CriCases ELSE cr = NoCr
   /\ IF part = "xlist" THEN xl \in XLists ELSE xl = NoXl
   /\ IF part = "size" THEN sz \in SizeCasesBounded /\ sc = NoSc /\ mt = NoMt
      ELSE IF part = "match" THEN MatchInit /\ sz = NoSz /\ sc = NoSc
-     ELSE IF part \in {"cri", "xlist", "rlist", "skey"} THEN sz = NoSz /\ sc = NoSc /\ mt = NoMt
+     ELSE IF part \in {"cri", "xlist", "rlist", "skey", "offs"} THEN sz = NoSz /\ sc = NoSc /\ mt = NoMt
      ELSE /\ sz = NoSz /\ mt = NoMt
           /\ \E T \in Ts \cup (IF WithDisabled THEN {-1} ELSE {}), U \in Us, mode \in Modes :
                \E T2 \in (IF mode = "rules" /\ NSrc >= 2 THEN T2s ELSE {0}) :
@@ -541,7 +583,7 @@ PrevMb(s) == IF Len(hist) = 1 THEN 0 ELSE hist[Len(hist) - 1].mb[s]
 Flip(s) == Last.mb[s] = 1 /\ PrevMb(s) = 0          \* banned(s) became true in the last step
 
 TypeOK ==
-  /\ part \in {"size", "spam", "match", "cri", "xlist", "rlist", "skey"}
+  /\ part \in {"size", "spam", "match", "cri", "xlist", "rlist", "skey", "offs"}
   /\ part = "spam" => /\ \A s \in Srcs : cnt[s] >= 0 /\ (s \notin known => cnt[s] = 0)
                       /\ \A s \in known : cnt[s] <= sc.U * thrOf[s] + MaxSteps
 
@@ -601,6 +643,7 @@ Export ==
   ELSE IF part = "xlist" THEN PrintT(ToJson(XExport))
   ELSE IF part = "rlist" THEN PrintT(ToJson(RExport))
   ELSE IF part = "skey" THEN PrintT(ToJson(SExport))
+  ELSE IF part = "offs" THEN PrintT(ToJson(OExport))
   ELSE IF Len(hist) = MaxSteps THEN PrintT(ToJson(SpamExport))
   ELSE TRUE
 
